@@ -614,7 +614,7 @@ Qed.
 
 (* ------------------------------------------------------------------------------------------- non-vacuity *)
 
-Definition o0 : opts := mkOpts true false false false false false false false false false false false 0 0 false [] false false false.
+Definition o0 : opts := mkOpts true false false false false false false false false false false false 0 0 false [] false false false false.
 Definition ds_ok : diskscan := mkDS 3 0 0 0 0 0 0 false.
 Definition ds_gone : diskscan := mkDS 0 0 0 4 0 2 3 false.
 Definition ds_zero1 : diskscan := mkDS 3 0 0 0 1 0 0 true.
@@ -636,7 +636,7 @@ Proof. vm_compute. reflexivity. Qed.
 Example ex_short_refused : run Sync o0 (p0 [ds_ok; ds_ok] [9; 6]) = ([WLog; WLock], ExRefused).
 Proof. vm_compute. reflexivity. Qed.
 
-Definition o_force : opts := mkOpts true true true true false false false false false false false false 0 0 false [] false false false.
+Definition o_force : opts := mkOpts true true true true false false false false false false false false 0 0 false [] false false false false.
 Example ex_overridden_proceeds :
   exitc Sync o_force (p0 [ds_zero1; ds_gone] [9; 6]) = ExOk /\
   sync_can_start o_force (p0 [ds_zero1; ds_gone] [9; 6]) /\
@@ -651,7 +651,7 @@ Qed.
 Definition it_missing : fixitem := mkFI 1 7 OFile true true false false FRecoverable false false true [5].
 Definition it_unsel : fixitem := mkFI 0 3 OFile false true false false FRecoverable false false true [].
 Definition it_bad : fixitem := mkFI 0 4 OFile true false false true FUnrecoverable true false true [].
-Definition o_fix : opts := mkOpts true false false false false false false false false false false false 0 0 true [true; false] false false false.
+Definition o_fix : opts := mkOpts true false false false false false false false false false false false 0 0 true [true; false] false false false false.
 Definition p_fix : pre :=
   mkPre true true 2 2 true true false false false false 0 [ds_ok; ds_ok] false 9 9 [true; true] [true; true] [9; 9] [9; 9] [false; false] [false; false] false [] false false 0 false false false
         [it_missing; it_unsel; it_bad] [(0, 2); (1, 2)] [false; true] [] true [].
@@ -681,7 +681,7 @@ Proof. vm_compute. auto. Qed.
 Definition p_recorded : pre :=
   mkPre true true 2 2 true true false false false false 0 [ds_ok; ds_ok] false 9 7 [true; true] [true; true] [9; 9] [9; 2] [false; true] [false; false]
         false [] false false 0 false false false [] [] [false; false] [] true [].
-Definition o_plain : opts := mkOpts true false false false false false false false false false false false 0 0 false [] false false false.
+Definition o_plain : opts := mkOpts true false false false false false false false false false false false 0 0 false [] false false false false.
 
 Lemma interlock_refuses_refuted : exists t o p,
   fires t p = true /\ overridden t o = false /\ exitc Sync o p = ExOk /\ In (RszParity 1) (effects Sync o p).
